@@ -194,7 +194,7 @@ func (rc *runCtx) prepare() error {
 	rc.repo = filepath.Join(d, "repo")
 	rc.bin = filepath.Join(d, "bin")
 	rc.out = filepath.Join(d, "out")
-	for _, p := range []string{rc.bin, rc.out} {
+	for _, p := range []string{rc.bin, rc.out, filepath.Join(d, "tmp")} {
 		if err := os.MkdirAll(p, 0o755); err != nil {
 			return err
 		}
@@ -354,6 +354,7 @@ func (rc *runCtx) runBatch(j batchJob) batchResult {
 		"VERIF_UNITNAME="+u.Name,
 		"GORACE=halt_on_error=0 log_path="+filepath.Join(rc.out, base+".race"),
 		"GOTRACEBACK=all",
+		"TMPDIR="+filepath.Join(rc.scratch, "tmp"), // test TempDirs of crashed children are removed with the scratch
 	)
 	if gmp > 0 {
 		env = append(env, "GOMAXPROCS="+strconv.Itoa(gmp))
